@@ -155,6 +155,12 @@ VH_DRIVER(algebra){
       const char* esc[]={"%e2","%E2","%aB","%Ba","%fF","%2e","%2E","%7e","%4a","%4A","%c3%a9"};
       for(auto e:esc) for(const char*form:{"s://u@h/p?q#f","s://U%s@h/","s://h%s/","s://h/%s","s://h/a%sb/c","s://h/?%s","s://h/#%s","%s","s:%s","//%s@%s/%s?%s#%s"}){ char buf[200]; snprintf(buf,sizeof buf,form,e,e,e,e,e);
         for(unsigned m:{63u,2u,4u,8u,16u,32u}) for(int owned=0;owned<2;++owned){ ++q; AW(true,q%2,[&]{ normalize_event<ApiA>(T(buf),m,owned,(int)(q%3)); },[&]{ normalize_event<ApiW>(T(buf),m,owned,(int)(q%3)); }); } } }
+    // (3) case folding touches letters only: every character a host, an IPvFuture literal, a scheme or user info may contain, between two
+    // upper-case letters, borrowed and owned, normalized twice (the second run works on the library's own copy)
+    { long q=0; const char* hostch="abzABZ019-._~!$&'()*+,;="; 
+      for(const char*c=hostch;*c;++c) for(const char*form:{"//A%cB/","//[v1.A%cB]/","//[vF.%c]","//U%cV@h/","s://H%c/"}){ char buf[64]; snprintf(buf,sizeof buf,form,*c);
+        for(unsigned m:{63u,4u}) for(int owned=0;owned<2;++owned){ ++q; AW(true,q%2,[&]{ normalize_event<ApiA>(T(buf),m,owned,(int)(q%3)); },[&]{ normalize_event<ApiW>(T(buf),m,owned,(int)(q%3)); }); } }
+      for(const char*sc:{"A+B-C.D1:","Zz9:","a.B+c-D:x","AZ:","Az09+-.:/"}) for(unsigned m:{63u,1u}) for(int owned=0;owned<2;++owned){ ++q; AW(true,q%2,[&]{ normalize_event<ApiA>(T(sc),m,owned,(int)(q%3)); },[&]{ normalize_event<ApiW>(T(sc),m,owned,(int)(q%3)); }); } }
     static const unsigned masks[]={63,0,1,2,4,8,16,32,8|4,63^8,1|32,0x40|8,0xFFFFFFFFu,0x40,0x100};
     size_t total=in.size()*(g.thorough?64:6); double keep= total>(size_t)want? (double)want/total:1.0; long k=0;
     for(auto&t:in){ int nm= g.thorough?64:6; for(int mi=0;mi<nm;++mi){ ++k; if(keep<1.0 && (R.next()%1000000)>=keep*1000000) continue; unsigned m= g.thorough? (unsigned)mi : masks[(k+mi)%15];
@@ -183,6 +189,10 @@ VH_DRIVER(algebra){
     { const char* auths[]={"//h","//u@h","//v@h","//@h","//h:1","//h:2","//h:","//u@h:1","//g","//H","//1.2.3.4","//1.2.3.5","//9.2.3.4","//[::1]","//[::2]","//[1::1]","//[0:0:0:0:0:0:0:1]","//[::1.2.3.4]","//[::102:304]","//[v1.a]","//[v1.b]","//[v2.a]","//v1.a","//V1.a","//","//1.2.3.4:1","//[::1]:1","//[::1]:2","//u@[::1]","//1.2.3.4:2","//u@1.2.3.4","//[v1.a]:1","//u@[v1.a]"};
       const char* pths[]={"/a/b","/a/c"}; long q=0;
       for(auto a1:auths) for(auto a2:auths) for(int pi=0;pi<2;++pi) for(int md=0;md<2;++md){ ++q; Text s=T("s:")+T(a1)+T(pths[pi]), b=T("s:")+T(a2)+T(pths[1-pi]);
+        AW(true,q%2,[&]{ removebase_event<ApiA>(s,b,md,(int)(q%3==0)); },[&]{ removebase_event<ApiW>(s,b,md,(int)(q%3==0)); }); } }
+    // the first segment written into the reference contains ':' - whatever stands before the colon (the "./" guard of reference creation)
+    { long q=0; const char* first[]={"a:b","a1:b","a+b:c","a-b:c","a.b:c","A+1-.:x","1a:b","+a:b","-:x",".a:b","a_b:c","a~b:c","a!b:c","a@b:c","a%41:b","%41:b",":b","a:","a::b","a:b:c","svn+ssh:repo","a$b:c","a&b:c","a'b:c","a(b):c","a*b:c","a,b:c","a;b:c","a=b:c"};
+      for(auto f:first) for(const char*ctx:{"s://h/dir/","s:/dir/","s://h/","s:/"}) for(const char*rest:{"","/r"}) for(const char*bt:{"x","x/y",""}) for(int md=0;md<2;++md){ ++q; Text s=T(ctx)+T(f)+T(rest), b=T(ctx)+T(bt);
         AW(true,q%2,[&]{ removebase_event<ApiA>(s,b,md,(int)(q%3==0)); },[&]{ removebase_event<ApiW>(s,b,md,(int)(q%3==0)); }); } }
     // presence against emptiness of query and fragment on either side (absent, present-but-empty, equal text, different text), for the same
     // path, a sibling, a deeper and a shallower one, with and without authority
